@@ -4,6 +4,7 @@
 
 from __future__ import division
 
+import math
 import numpy as np
 import numbers
 
@@ -321,6 +322,27 @@ class Units(object):
                           power * self.triple[2]),
                          Units.name_power(self.name, power))
 
+    @staticmethod
+    def _sqrt_of_coefft(value):
+        """The square root of a numerator or denominator: an exact int if the
+        value is the square of an int, otherwise a float.
+
+        Python ints are handled exactly, whatever their size; np.sqrt() rounds
+        ints above 2**53 and fails on ints above 2**64.
+        """
+
+        if isinstance(value, numbers.Integral) and value >= 0:
+            value = int(value)
+            root = math.isqrt(value)
+            if root * root == value:
+                return root
+            return math.sqrt(value)
+
+        root = np.sqrt(value)
+        if root == int(root):
+            root = int(root)
+        return root
+
     def sqrt(self, name=None):
         """The square root of a unit if this is possible."""
 
@@ -332,12 +354,8 @@ class Units(object):
         exponents = (self.exponents[0]//2, self.exponents[1]//2,
                                            self.exponents[2]//2)
 
-        numer = np.sqrt(self.triple[0])
-        denom = np.sqrt(self.triple[1])
-        if numer == int(numer):
-            numer = int(numer)
-        if denom == int(denom):
-            denom = int(denom)
+        numer = Units._sqrt_of_coefft(self.triple[0])
+        denom = Units._sqrt_of_coefft(self.triple[1])
 
         pi_expo = self.triple[2] // 2
         if self.triple[2] != 2*pi_expo:
